@@ -53,5 +53,26 @@ let opt f = function None -> "UB" | Some x -> f x
 let rec list_of_ocaml = function [] -> [] | x :: xs -> x :: list_of_ocaml xs
 
 
+(* byte buffers travel as lower-case hex strings ("-" = empty) and are lists of
+   extracted [z] (each 0..255) in the model *)
+let bytes_of_hex (s : string) : z list =
+  if s = "-" then [] else begin
+    let v c = if c <= '9' then Char.code c - 48 else (Char.code c lor 32) - 87 in
+    let n = String.length s / 2 in
+    List.init n (fun i -> z_of_int (v s.[2*i] * 16 + v s.[2*i+1]))
+  end
+
+let hex_of_bytes (l : z list) : string =
+  if l = [] then "-" else
+  String.concat "" (List.map (fun b -> Printf.sprintf "%02x" (int_of_z b)) l)
+
+let n_of_string (s : string) : n =
+  match z_of_string s with Z0 -> N0 | Zpos p -> Npos p | Zneg _ -> failwith "negative N"
+let string_of_n (x : n) : string =
+  match x with N0 -> "0" | Npos p -> string_of_z (Zpos p)
+
+let rec nat_of_int (i : int) : nat = if i <= 0 then O else S (nat_of_int (i - 1))
+let rec int_of_nat = function O -> 0 | S n -> 1 + int_of_nat n
+
 let commands : (string, string list -> string) Hashtbl.t = Hashtbl.create 64
 let register name f = Hashtbl.replace commands name f
